@@ -351,6 +351,13 @@ fn iterator_facts(doc: &ExecutableDocument) -> Vec<J> {
     })).collect()
 }
 
+/// selections on the interface-typed field `i` whose combinations exercise both passes of field merging
+/// (same response shape for any two parents; same name and arguments unless both parents are different objects)
+pub const MERGE_POOL: &[&str] = &[
+    "a", "x: a", "... on O { c }", "... on P { c }", "... on O { x: c }", "... on P { x: p }", "... on O { n(x: 1) }", "... on O { n(x: 2) }",
+    "... on O { o { a } }", "... on O { o { x: c } }", "... on O { o { x: a } }", "... on P { k: a }", "... on O { k: c }", "... on O { k: n(x: 1) }",
+];
+
 /// `doc-cases --seed S --depth2 N --schemas-out FILE`: Trace_ExecRules lines
 pub fn cases(args: &[String]) {
     silence_panics();
@@ -392,6 +399,28 @@ pub fn cases(args: &[String]) {
             Err(p) => out.line(&json!({"origin": origin, "crash": p, "text": text})),
         }
     };
+    // field merging: every sequence of up to three selections of the pool (every `merge_every`-th triple)
+    let merge_every = arg_num(args, "--merge-every", 1) as usize;
+    let np = MERGE_POOL.len();
+    let mut count = 0usize;
+    for len in 1..=3usize {
+        let total = np.pow(len as u32);
+        for code in 0..total {
+            count += 1;
+            if len == 3 && count % merge_every != 0 {
+                continue;
+            }
+            let mut c = code;
+            let mut parts = vec![];
+            for _ in 0..len {
+                parts.push(MERGE_POOL[c % np]);
+                c /= np;
+            }
+            let text = format!("query {{ i {{ {} }} }}", parts.join(" "));
+            let ast = ast::Document::parse(text, "merge.graphql").expect("merge doc syntax");
+            emit(&mut out, &project_doc(&ast), format!("merge-{len}-{code}"), true);
+        }
+    }
     for (k, src) in SEED_DOCS.iter().enumerate() {
         let ast = ast::Document::parse(src.to_string(), "seed.graphql").expect("seed doc syntax");
         let abs = project_doc(&ast);
